@@ -473,6 +473,20 @@ def check_c04(tier):
             continue    # crashes are C01's business
         cases.append(output_case(it['case']['cfg'], it['case']['proteome'], x['fasta'], x.get('table')))
         keep.append((it, x))
+    # the same limits must hold for transcripts that were retried after a timeout (guarded hook; ladder 7,6 / 2,1)
+    rsel = [it for it in items if it['mode'] in ('base', 'multi', 'nc', 'stop', 'lowmass') and it['cfg']['max_len'] < 25]
+    rsel = rsel[:40 if tier == 'quick' else 800]
+    if rsel:
+        tmo = {t['tx']['id']: 1 for it in rsel for t in it['case']['txs']}
+        rflat, err = run_tool(rsel, want_table=True, timeouts=tmo,
+                              extra_args=dict(max_variants_per_node=[7, 6], additional_variants_per_misc=[2, 1]))
+        if err:
+            rep.machinery(err)
+            return rep.finish()
+        for it, x in zip(rsel, rflat):
+            if x['ok']:
+                cases.append(output_case(it['case']['cfg'], it['case']['proteome'], x['fasta'], x.get('table')))
+                keep.append((dict(it, mode=it['mode'] + '+retry', variants=(it['variants'], 'retried after an injected timeout')), x))
     other = other_commands(rep, tier, work)
     for cfg, proteome, fasta, it in other:
         cases.append(output_case(cfg, proteome, fasta, None)); keep.append((it, dict(fasta=fasta)))
@@ -736,6 +750,15 @@ def check_c05(tier):
                        "restrictive switches (noncanonical-transcripts, backsplicing-only) must give a subset; inputs: the synthetic "
                        "campaign of C01 and the repository's demo data (fusion, circRNA, alternative splicing, too large for haplotype "
                        "enumeration); complexity limits off; non-trivial = the relaxed run adds at least one peptide")
+    # design level: Complete / Sound of Peptides.tla are monotone in the variant set, the limits and the adjacency option, Complete
+    # lies inside Sound, and the alt-translation flags can only remove forms of the unmodified transcript (MC_Peptides, exhaustive
+    # over every subset of the candidate variant pools x the configuration lattice)
+    mc = tlc.run('MC_Peptides', 'MC_Peptides.cfg', timeout=3000, heap='6g')
+    rep.tlc('MC_Peptides.cfg', mc)
+    if mc.violation:
+        rep.violation(f'model:{mc.violation}', f"the definitional layer violates {mc.violation} (MC_Peptides)", dict(tail=mc.out[-1500:]))
+    elif not mc.ok:
+        rep.machinery(f"TLC failed on MC_Peptides: rc={mc.rc} {mc.errors[:2]} {mc.out[-300:]}")
     work = env.scratch('c05_')
     r = env.rng('c05')
     items = [it for it in campaign(rep, tier, work) if it['mode'] in ('base', 'nc', 'sec', 'multi', 'startnf', 'nf', 'sect', 'adj', 'stop')]
